@@ -78,6 +78,113 @@ theorem same_claim_same_root (cred cred' : CredIn) (c : Claim)
     simp only [hk, if_true] at m6 m6'
     rw [← m6, ← m6']
 
+/-! ### completeness of the binding check -/
+
+theorem stageFlags_congr (o o' : Opts) (c : CredIn) (cl : Claim) (h : o'.updatable = o.updatable) :
+    stageFlags o' c cl = stageFlags o c cl := by
+  unfold stageFlags; rw [h]
+
+/-- the flags of an issued claim, in terms of the issuing options (read off the closed form of C05) -/
+theorem issued_flags (o : Option Opts) (cred : CredIn) (c : Claim) (tp attr : String) (ia ib va vb : Nat) (nonM : Bool)
+    (hm : Meets c (expected (o.getD defaultOpts) cred tp ia ib va vb nonM)) :
+    (decode c).subjectFlag = subjOf (o.getD defaultOpts) cred ∧
+    ((decode c).updatable = true ↔ (o.getD defaultOpts).updatable = true) ∧
+    (decode c).merklizedFlag = mrkOf (o.getD defaultOpts) nonM ∧
+    (decode c).version = (o.getD defaultOpts).version % 2 ^ 32 ∧
+    (decode c).revNonce = (o.getD defaultOpts).revNonce % 2 ^ 64 := by
+  generalize o.getD defaultOpts = opts at hm ⊢
+  obtain ⟨m0, m1, _⟩ := hm
+  simp only [expected] at m0 m1
+  have hmk : mrkOf opts nonM < 8 := by unfold mrkOf; split <;> (try split) <;> omega
+  obtain ⟨_, e1, _, e3, e4, e5⟩ := decode_i0Of c _ _ _ _ _ _ ⟨subj_lt opts cred, exp_lt cred, upd_lt opts, hmk⟩ m0
+  obtain ⟨f0, _⟩ := decode_v0Of c _ _ m1
+  refine ⟨e1, ?_, e4, e5, f0⟩
+  rw [e3]; unfold updOf; split <;> simp_all
+
+/-- **Completeness of the binding check**: a claim produced by `ToCoreClaim` from a credential - with any options
+    (nonce and version within their Go types uint64 / uint32), or with none - passes the binding check of that
+    credential: the options rebuilt from the claim's own flags re-derive exactly the same claim. -/
+theorem issue_then_bind (o : Option Opts) (cred : CredIn) (c : Claim)
+    (hn : (o.getD defaultOpts).revNonce < 2 ^ 64) (hv : (o.getD defaultOpts).version < 2 ^ 32)
+    (h : toCoreClaim o cred = .ok c) : bindCheck cred c = .ok () := by
+  obtain ⟨tp, attr, ia, ib, va, vb, nonM, htp, hattr, hslots, hm⟩ := toCoreClaim_spec o cred c h
+  obtain ⟨dsub, dupd, dmrk, dver, dnonce⟩ := issued_flags o cred c tp attr ia ib va vb nonM hm
+  have key : toCoreClaim (some (optsOfClaim c)) cred = .ok c := by
+    unfold toCoreClaim at h ⊢
+    simp only [Option.getD_some] at h ⊢
+    generalize o.getD defaultOpts = opts at *
+    rw [Nat.mod_eq_of_lt hv] at dver
+    rw [Nat.mod_eq_of_lt hn] at dnonce
+    have hupd : (optsOfClaim c).updatable = opts.updatable := by
+      have : (optsOfClaim c).updatable = (decode c).updatable := rfl
+      rw [this]
+      cases h1 : (decode c).updatable <;> cases h2 : opts.updatable <;> simp_all
+    have hver : (optsOfClaim c).version = opts.version := dver
+    have hnon : (optsOfClaim c).revNonce = opts.revNonce := dnonce
+    have hrp : (optsOfClaim c).rootPos = if (decode c).merklizedFlag = 1 then "index" else if (decode c).merklizedFlag = 2 then "value" else "" := rfl
+    have hsp : (optsOfClaim c).subjectPos = if (decode c).subjectFlag = 2 then "index" else if (decode c).subjectFlag = 3 then "value" else "" := rfl
+    split at h
+    · simp at h
+    · rename_i hmz
+      simp only [hmz, htp, hattr, hslots] at h ⊢
+      split at h
+      · simp at h
+      · rename_i rootPos hroot
+        split at h
+        · simp at h
+        · rename_i cl0 hcl0
+          split at h
+          · simp at h
+          · rename_i cl1 hsubj
+            -- the root position rebuilt from the claim is the effective one of the issuing run
+            have hroot' : effectiveRootPos (optsOfClaim c) nonM = .ok rootPos := by
+              unfold effectiveRootPos at hroot ⊢
+              rw [hrp, dmrk]
+              unfold mrkOf
+              cases nonM with
+              | true =>
+                simp only [Bool.not_true, Bool.false_eq_true, if_false, if_true] at hroot ⊢
+                split at hroot
+                · simp at hroot
+                · simp at hroot; subst hroot; simp
+              | false =>
+                simp only [Bool.not_false, if_true, Bool.false_eq_true, if_false] at hroot ⊢
+                simp at hroot
+                subst hroot
+                -- the run went on, so the position is one stageRoot knows
+                unfold stageRoot at h
+                by_cases hv' : opts.rootPos = "value"
+                · simp [hv']
+                · by_cases he : opts.rootPos = ""
+                  · simp [he]
+                  · by_cases hi : opts.rootPos = "index"
+                    · simp [hi]
+                    · simp [he, hi, hv'] at h
+            have hsubj' : ∀ cl, stageSubject (optsOfClaim c) cred cl = stageSubject opts cred cl := by
+              intro cl
+              unfold stageSubject at hsubj ⊢
+              rw [hsp, dsub]
+              unfold subjOf
+              cases hs : cred.subject with
+              | none => rfl
+              | some r =>
+                cases r with
+                | error e => rfl
+                | ok id =>
+                  simp only [hs] at hsubj
+                  by_cases hv' : opts.subjectPos = "value"
+                  · simp [hv']
+                  · by_cases hi : opts.subjectPos = "" ∨ opts.subjectPos = "index"
+                    · simp [hv', hi]
+                    · simp [hv', hi] at hsubj
+            rw [hroot']
+            simp only [hnon, hver, hcl0]
+            rw [stageFlags_congr opts (optsOfClaim c) cred cl0 hupd, hsubj' _, hsubj]
+            exact h
+  unfold bindCheck
+  rw [key]
+  simp
+
 /-- the dispatcher: an unknown proof type is "proof not found", an unsupported one "proof not supported", and
     the binding check runs before the proof-specific verifier -/
 theorem proof_selected_by_type (av : List ProofKind) (w : ProofKind) (ok : Bool) (bind : Except String Unit) (run : ProofKind → Outcome)
